@@ -123,7 +123,7 @@ fn tier_secs(tier: &str) -> f64 {
     if tier == "thorough" {
         1500.0
     } else {
-        120.0
+        100.0
     }
 }
 
